@@ -49,6 +49,9 @@ def generate(seed, tier, enlarged=False):
         if c['add_at'] is None:
             c['add_at'] = rng.choice([0, 1])
         cases.append(c)
+    # the frame condition on values the structural model does not carry (None, strings, dicts): oracle only
+    from harness import frame
+    cases += frame.corpus() + [frame.gen_case(rng) for _ in range(n // 3)]
     return cases
 
 
@@ -172,7 +175,16 @@ def run(cases, tier='quick', seed=0):
         run_impl, oracle = staticmethod(globtopo.run_impl), staticmethod(globtopo.oracle)
         nontrivial, stat_key = staticmethod(globtopo.nontrivial), staticmethod(globtopo.stat_key)
         render = staticmethod(lambda c, ob: None)
+    from harness import frame
+
+    class Frame:
+        __name__ = 'harness.frame'
+        IMPORTS, CHECK_FN, BAD_TERM = struct.IMPORTS, struct.CHECK_FN, struct.BAD_TERM
+        run_impl, oracle = staticmethod(frame.run_impl), staticmethod(frame.oracle)
+        nontrivial, stat_key = staticmethod(frame.nontrivial), staticmethod(frame.stat_key)
+        render = staticmethod(lambda c, ob: None)
     return common.merge_streams(cases, [
+        (lambda c: c['kind'] == 'frame', lambda cs: common.generic_run(Frame, cs, seed, shard=40)),
         (lambda c: c['kind'] == 'hist', lambda cs: common.generic_run(me, cs, seed, shard=40)),
         (lambda c: c['kind'] == 'nestmove', lambda cs: common.generic_run(Nest, cs, seed, shard=40)),
         (lambda c: c['kind'] == 'globtopo', lambda cs: common.generic_run(Glob, cs, seed, shard=40))])
